@@ -724,7 +724,7 @@ Proof.
 Qed.
 
 (* every configuration, every start offset, every pass / read structure: the events that reach the output are exactly the
-   admitted complete lines of the content - offset of the line's end, the line without its newline (cut to max bytes
+   accepted complete lines of the content - offset of the line's end, the line without its newline (cut to max bytes
    and flagged when longer), in order, once *)
 Theorem worker_events c o sk0 rs : 0 <= wmax c ->
   events_of c (fst (rounds c (st_at o sk0) rs)) = events_of c (spec_emits c sk0 o (flat rs)).
